@@ -77,6 +77,9 @@ static void
 subobj(struct initparser *p, struct type *t, unsigned long long off)
 {
 	off += p->sub->offset;
+	/* only the object itself may be an array of unknown size; as a member it is a flexible array member */
+	if (t->incomplete && t->kind == TYPEARRAY)
+		error(&tok.loc, "initialization of flexible array member");
 	if (++p->sub == p->obj + LEN(p->obj))
 		fatal("internal error: too many designators");
 	p->sub->type = t;
